@@ -562,7 +562,8 @@ fn main() {
                     id += 1;
                     let a = files[rng.gen_range(0..files.len())];
                     let b = files[rng.gen_range(0..files.len())];
-                    let big: Vec<u8> = (0..rng.gen_range(1000..5000)).map(|i| (i % 251) as u8).collect();
+                    // mostly 1000..5000 bytes; every 8th history works at and around the usual buffer capacity instead (8190..8200)
+                    let big: Vec<u8> = (0..if h % 8 == 7 { rng.gen_range(8190..8200) } else { rng.gen_range(1000..5000) }).map(|i| (i % 251) as u8).collect();
                     let pick = rng.gen_range(0..18);
                     if pick == 17 {
                         // a handle across a move of the working directory: opened under a relative spelling, written, the cwd moves
